@@ -4,11 +4,13 @@ package tables
 import (
 	"fmt"
 	"os"
+	"os/exec"
 	"path/filepath"
 	"reflect"
 	"regexp"
 	"sort"
 	"strings"
+	"sync"
 	"testing"
 
 	"github.com/elastic/go-libaudit/v2/aucoalesce"
@@ -755,5 +757,83 @@ func TestC20TablesStable(t *testing.T) {
 		c.fail("tables-after-use", "record type names", "String() of some record type changed while the tables were used")
 	case !reflect.DeepEqual(before.marshal, after.marshal):
 		c.fail("tables-after-use", "record type text", "MarshalText of some record type changed while the tables were used")
+	}
+}
+
+// TestFirstUseC20: the tables at their first use in a process, by many goroutines at once. A table that is built
+// when it is first asked for is half-built for whoever asks at the same moment. The test runs itself eight times
+// as a child process (a first use happens once per process); in the child 32 goroutines resolve every syscall
+// name of every architecture through the rule encoder and every record type / errno name through the parser
+// tables, starting together, and compare with the tables.
+func TestFirstUseC20(t *testing.T) {
+	if os.Getenv("VERIF_C20_CHILD") == "" {
+		for run := 0; run < 8; run++ {
+			hC20.Eval()
+			cmd := exec.Command(os.Args[0], "-test.run=^TestFirstUseC20$", "-test.count=1")
+			cmd.Env = append(os.Environ(), "VERIF_C20_CHILD=1", "VERIF_EV_DIR=")
+			out, err := cmd.CombinedOutput()
+			if err != nil {
+				tail := string(out)
+				if len(tail) > 1500 {
+					tail = tail[:1500]
+				}
+				hC20.Fail(t, "TestC20", C20Case{"first-use", fmt.Sprint(run)}, "32 goroutines using the tables for the first time in a fresh process: %v\n%s", err, tail)
+			}
+		}
+		hC20.Class("table-first-use")
+		hC20.NonTrivial(hx.FP("first-use"), func() string { return "first use of the tables by 32 goroutines at once, 8 fresh processes" })
+		return
+	}
+	type job struct {
+		arch, name string
+		num        int
+	}
+	var jobs []job
+	for arch, tab := range auparse.AuditSyscalls {
+		for num, name := range tab {
+			if num >= 0 && num < 2048 {
+				jobs = append(jobs, job{arch, name, num})
+			}
+		}
+	}
+	sort.Slice(jobs, func(i, j int) bool { return jobs[i].arch+jobs[i].name < jobs[j].arch+jobs[j].name })
+	const G = 32
+	start := make(chan struct{})
+	errs := make(chan string, G)
+	var wg sync.WaitGroup
+	for g := 0; g < G; g++ {
+		wg.Add(1)
+		go func(g int) {
+			defer wg.Done()
+			<-start
+			for k := range jobs {
+				j := jobs[(k*7+g*131)%len(jobs)]
+				r, err := flags.Parse("-a always,exit -F arch=" + j.arch + " -S " + j.name)
+				if err != nil {
+					errs <- fmt.Sprintf("%s/%s: %v", j.arch, j.name, err)
+					return
+				}
+				wf, err := rule.Build(r)
+				if err != nil {
+					errs <- fmt.Sprintf("%s/%s does not resolve: %v", j.arch, j.name, err)
+					return
+				}
+				w, err := rulegen.Decode(wf)
+				if err != nil || w.Mask[j.num/32] != 1<<(j.num%32) {
+					errs <- fmt.Sprintf("%s/%s resolves to mask word %d = %#x, the table says %d", j.arch, j.name, j.num/32, w.Mask[j.num/32], j.num)
+					return
+				}
+				if typ, err := auparse.GetAuditMessageType(auparse.AuditMessageType(1300 + k%30).String()); err != nil || int(typ) != 1300+k%30 {
+					errs <- fmt.Sprintf("record type %d does not map back: %v %v", 1300+k%30, typ, err)
+					return
+				}
+			}
+		}(g)
+	}
+	close(start)
+	wg.Wait()
+	close(errs)
+	for e := range errs {
+		t.Error(e)
 	}
 }
